@@ -277,9 +277,6 @@ func UpdateOps(from string, worlds []*WorldDef, steps []UpdateStep) []string {
 
 // GenUpdateHistory renders an update scenario as a history (the C15 op language; `check` = final comparison).
 func GenUpdateHistory(rg *rand.Rand, c *Cluster, ps []NetPol) []string {
-	if OverLimit(ps) {
-		return nil // the multiport defect (known finding) is judged in the from-empty stream only
-	}
 	for _, p := range ps {
 		// the strict ipset keeps ONE element per key: a rule that lists a network both as cidr and as except is
 		// outside the compared fragment (the set flips on every sync; see report)
